@@ -50,7 +50,7 @@ def _gen_script(r: random.Random, maxlen: int) -> list:
         if not in_txn and x > 0.9:
             s.append([r.choice(["commit", "rollback"]), r.randint(0, 1), r.choice(["sql", "api"])])
             continue
-        s.append([r.choice(["ins_own", "ins_own", "ins_sh", "ins_sh", "upd_own", "del_own", "fail", "sel", "merge_own", "wp_own"]), r.randint(0, 1)])
+        s.append([r.choice(["ins_own", "ins_own", "ins_sh", "ins_sh", "upd_own", "del_own", "fail", "sel", "merge_own", "wp_own", "with_block", "with_block_exc"]), r.randint(0, 1)])
     return s
 
 
@@ -83,6 +83,8 @@ def gen_cases(tier: str, seed: int):
                 yield {"scripts": [s0, [["sel", 0]]], "order": [0] * len(s0) + [1], "threaded": True}
             s1 = [["begin", 0], ["ins_own", 0], ["fail", 1], ["ins_sh", 0], [end1, 0, "sql"], ["sel", 1], ["begin", 0], ["fail", 0], [end2, 1, "api"]]
             yield {"scripts": [s1, [["sel", 0], ["ins_sh", 0]]], "order": [0] * 5 + [1] + [0] * 4 + [1]}
+    for variant in ("begin_insert_close", "begin_insert_commit_close", "begin_close"):
+        yield {"kind": "close_in_txn", "variant": variant}
     npairs = 40 if tier == "quick" else 1200
     for _ in range(npairs):
         scripts = [_gen_script(r, 4), _gen_script(r, 4)]
@@ -140,7 +142,55 @@ def _apply(table: Counter, op: tuple) -> Counter:
     return t
 
 
+def _close_in_txn(case: dict, env: core.Env) -> None:
+    """A connection closed inside a transaction takes its uncommitted work with it; a connection made afterwards is a new
+    session, outside any transaction."""
+    fs = core.new_fs()
+    try:
+        a, b = fs.connect("db1", "s1"), fs.connect("db1", "s1")
+        ka, kb = a.cursor(), b.cursor()
+        ka.execute("CREATE TABLE CT (ID INT)")
+        ka.execute("INSERT INTO CT VALUES (1)")
+        v = case["variant"]
+        ka.execute("BEGIN")
+        want = [(1,)]
+        if v != "begin_close":
+            ka.execute("INSERT INTO CT VALUES (2)")
+        if v == "begin_insert_commit_close":
+            ka.execute("COMMIT")
+            want = [(1,), (2,)]
+        a.close()
+        env.count("cmp_committed_view")
+        got = sorted(kb.execute("SELECT ID FROM CT").fetchall())
+        if got != want:
+            env.witness(f"C13/close-in-transaction/{v}/other-session-view", f"after close: another session reads {got} expected {want}")
+        c = fs.connect("db1", "s1")
+        kc = c.cursor()
+        got_c = sorted(kc.execute("SELECT ID FROM CT").fetchall())
+        if got_c != want:
+            env.witness(f"C13/close-in-transaction/{v}/new-session-sees-abandoned-work", f"a session connected after the close reads {got_c} expected {want}")
+        # the new session is in autocommit: its insert is visible to others at once, and its ROLLBACK is a no-op
+        kc.execute("INSERT INTO CT VALUES (9)")
+        got = sorted(kb.execute("SELECT ID FROM CT").fetchall())
+        if got != want + [(9,)]:
+            env.witness(f"C13/close-in-transaction/{v}/new-session-not-in-autocommit", f"other session reads {got} expected {want + [(9,)]}")
+        o = core.run_stmt(kc, "ROLLBACK")
+        got = sorted(kb.execute("SELECT ID FROM CT").fetchall())
+        if not o["ok"] or got != want + [(9,)]:
+            env.witness(f"C13/close-in-transaction/{v}/rollback-of-new-session-undid-something", f"{o.get('exc')}; table {got} expected {want + [(9,)]}")
+        o = core.run_stmt(kc, "BEGIN")
+        if not o["ok"]:
+            env.witness(f"C13/close-in-transaction/{v}/begin-rejected-in-new-session", str(o["exc"])[:200])
+        else:
+            kc.execute("ROLLBACK")
+        env.nontrivial(("close_in_txn", v))
+    finally:
+        fs.duck_conn.close()
+
+
 def run_case(case: dict, env: core.Env) -> None:
+    if case.get("kind") == "close_in_txn":
+        return _close_in_txn(case, env)
     conns, curs, raw = _state["conns"], _state["curs"], _state["raw"]
     scripts, order = case["scripts"], case["order"]
     k = len(scripts)
@@ -262,6 +312,16 @@ def run_case(case: dict, env: core.Env) -> None:
                 env.witness("C13/fail-statement-succeeded", str(o))
         elif kind == "sel":
             pass
+        elif kind in ("with_block", "with_block_exc"):
+            # the connection (and a cursor) used as a context manager: leaving the block neither commits nor rolls back
+            try:
+                with conns[ci] as c_:
+                    with c_.cursor() as k_:
+                        k_.execute("SELECT 1").fetchall()
+                    if kind == "with_block_exc":
+                        raise KeyError("left by an exception")
+            except KeyError:
+                pass
         elif kind in ("commit", "rollback"):
             had = txn[ci] is not None
             if op[2] == "sql":
